@@ -15,7 +15,7 @@ from simkit.tape import digest_of
 from simkit import vclock
 
 ID = "C12"
-RUNS = {"quick": 55_000, "thorough": 1_500_000}
+RUNS = {"quick": 55_000, "thorough": 1_000_000}
 MAX_BATCH = 1000
 SIM_TIME_UNIT = "virtual milliseconds (1 per scheduler step)"
 RULE = (
@@ -66,8 +66,8 @@ def _tagpair(tape):
     return sorted(new), sorted(gone)
 
 
-def gen_workload(tape):
-    n = 2 + tape.draw("program", 3, "nthreads")
+def gen_workload(tape, big=False):
+    n = 2 + tape.draw("program", 5 if big else 3, "nthreads")
     scripts = []
     ek = [0]
 
@@ -77,7 +77,7 @@ def gen_workload(tape):
 
     for th in range(n):
         ops = []
-        ntests = 1 + tape.draw("program", 3, "ntests")
+        ntests = 1 + tape.draw("program", 5 if big else 3, "ntests")
         if tape.chance("program", 1, 4, "startTestRun"):
             ops.append(["run", "startTestRun"])
         for i in range(ntests):
@@ -116,7 +116,7 @@ def gen_faults(tape):
 
 def run_one(tape, opts):
     out = Outcome()
-    scripts = gen_workload(tape)
+    scripts = gen_workload(tape, big=opts.get("tier") == "thorough")
     plan = gen_faults(tape)
     traced = tape.chance("config", 1, 4 if opts.get("tier") == "thorough" else 12, "traced")   # line-level pre-emption
     nops = sum(len(s) for s in scripts)
